@@ -1,7 +1,7 @@
 """C07 — PDB files round-trip structures and never emit shifted columns.
 
 Op grammar (one op per line; strings are hex of their ASCII bytes prefixed with `x`, a finite binary
-float is `[+-]<m>p<e>` = ±m/2^e, i.e. the exact value of the float32/float64):
+float is `[+-]<m>p<e>` = ±m/2^e, i.e. the exact value of the float32/float64; non-finite: `nan`, `+inf`, `-inf`):
   h36enc <n> <w>                       encode_hybrid36(n, w)            -> ok <text> | ERR:<cls>
   h36dec <xhex>                        decode_hybrid36(text)            -> ok <n>    | ERR:<cls>
   atom <het> <id> <xname> <xres> <xchain> <resid> <xins> <xel> <occ> <bf> <q>   append an atom       -> ok
@@ -12,6 +12,7 @@ float is `[+-]<m>p<e>` = ±m/2^e, i.e. the exact value of the float32/float64):
   write <h36> <hasid> <hasb> <hasocc> <hasq> <hasbonds>   PDBFile.set_structure -> ok <n> |line|line|…| | ERR:<cls>
   rawline <xhex>                       append a raw line to the file                                 -> ok
   readmodel <k> <include_bonds>        the same with model=k (an AtomArray, reported as M=1)
+  readalt <first|occupancy|all> <b>    the same with altloc=<mode>; `all` appends L:<altloc ids, blank as _>
   read <include_bonds>                 PDBFile.read(text).get_structure(extra_fields=all, include_bonds)
                                        -> ok M=<models> N=<atoms> A:<atoms> C:<coords in 1e-3> B:<bonds> X:<cell read: 1e-3 A, 1e-2 deg | -> | ERR:<cls>
 """
@@ -34,7 +35,7 @@ RULE = ("seeded atom arrays / stacks (1-12 atoms, 1-3 models, optional atom_id/b
         "B-factors around 999.995/-99.995, ids around 99999/9999/-9999/-999 and the hybrid-36 range borders, 0-4 "
         "character names with 1-2 letter elements, empty chain; boxes with cell lengths 9999.999/10000.0/99999.99/0.001 and angles near 0/90/180), written and re-read op by op against the Lean model "
         "(text of every line compared), a malformed stream (one field beyond its column: model and code must both "
-        "refuse), get_structure(model=k) for k in -M-3..M+2, raw ATOM lines in non-canonical but valid layouts for the reader, hybrid-36 numbers at all range "
+        "refuse, incl. NaN/inf), get_structure(model=k) for k in -M-3..M+2, files with alternate locations read with altloc=first/occupancy/all, raw ATOM lines in non-canonical but valid layouts for the reader, hybrid-36 numbers at all range "
         "borders for widths 1-5; oracle: independent PDB column table + write/read equality + exhaustive width-4 "
         "hybrid-36 (thorough: strided width 5). non-trivial = has an atom or a hybrid-36 op; distinct = different op text")
 TRUSTED = ["numpy chararray concatenation/justification and rstrip-on-index modelled by documented semantics",
@@ -46,17 +47,19 @@ ASSUMPTIONS = ["field characters are printable non-blank ASCII; ids fit a C int"
                "hybrid-36 C int arithmetic is overflow-free for widths <= 6 (checked by correspondence), the all-width theorems are about the algorithm over unbounded naturals"]
 LEVEL_TEXT = ("Lean proofs for all inputs: hybrid-36 decode(encode n w) = n for every width w >= 1 and n <= maxNumber w (also inside a "
               "blank-padded column), encode(decode s) = s on canonical strings, rejection beyond the range, width; the repaired "
-              "_check_pdb_compatibility accepts exactly the atoms whose fields fit after rounding (C07_compat_sound / _exact) and every "
-              "accepted ATOM/HETATM record is 80 characters with all 19 fields in their fixed columns (C07_columns); full record round "
-              "trip C07_atom_roundtrip: the reader returns every annotation, B-factor/occupancy to 1e-2, charge and coordinates to 1e-3 "
-              "(float() on the writer's fixed-point text modelled as exact decimal parsing; rounding error <= half a unit, "
-              "C07_round_error); C07_models: model=k / model=-k select exactly that model's records of a written stack, 0 and "
-              "out-of-range indices are refused (after fix 3f6e919f); C07_conect_roundtrip: the set of carriable bonds survives "
-              "write->read through the atom-id map incl. hybrid-36 ids; C07_cryst1_roundtrip: the box check accepts exactly the cells that "
-              "fit after rounding, the CRYST1 record is 80 characters with a,b,c,alpha,beta,gamma in columns 7-15..48-54 and is read back to "
-              "1e-3 A / 1e-2 deg, an oversized cell is refused (after fix 8f9d909b); regenerated ATOM and CRYST1 column tables. Partial: the "
-              "trigonometry between box vectors and cell parameters (float32), altloc filtering, NaN/inf and the assembly of per-record "
-              "results into numpy arrays are exercised by correspondence and oracle only.")
+              "_check_pdb_compatibility accepts exactly the atoms whose fields fit after rounding (C07_compat_sound / _exact); NaN / +-inf in "
+              "coordinates or a present B-factor/occupancy annotation are refused although their text would fit the column "
+              "(C07_nonfinite_refused); every accepted ATOM/HETATM record is 80 characters with all 19 fields in their fixed columns "
+              "(C07_columns); full record round trip C07_atom_roundtrip (B-factor/occupancy to 1e-2, charge, coordinates to 1e-3; float() "
+              "on the writer's text = exact decimal parsing; C07_round_error); C07_models / C07_models_single: model=k / -k select exactly "
+              "that model's records, 0 and out-of-range are refused; C07_stack_assembly: the reader's model split of a written stack returns "
+              "the records of model m in order (record j at [m, j]), equal block lengths, unequal lengths raise InvalidFileError "
+              "(C07_unequal_models_rejected); C07_conect_roundtrip: the set of carriable bonds survives write->read through the atom-id "
+              "map incl. hybrid-36 ids; C07_cryst1_roundtrip; C07_altloc_first / C07_altloc_occupancy: the altloc filters keep exactly the "
+              "rows without id and those of the first / highest-occupancy id per residue; C07_file_roundtrip composes CRYST1, the model "
+              "split and the per-record round trip for a whole written stack at record level; regenerated ATOM and CRYST1 column tables. "
+              "Partial: box vectors <-> cell parameters (float32 trigonometry), element guessing, and the final packing of the per-record "
+              "results into numpy arrays (mapMR in readPdb) are tied by correspondence and oracle only.")
 LEVEL_NOTE = "float formatting/parsing, numpy chararray and BondList semantics are modelled, not verified; see notes/C07.md"
 TECHNIQUE = "Lean 4 proof (induction over digit lists / list layout lemmas) + regenerated column tables + correspondence"
 
@@ -78,12 +81,18 @@ def unhx(t):
 def fx(v):
     """exact value of a finite float as [+-]m p e"""
     v = float(v)
+    if math.isnan(v):
+        return "nan"
+    if math.isinf(v):
+        return "+inf" if v > 0 else "-inf"
     fr = Fraction(abs(v))
     e = fr.denominator.bit_length() - 1
     return ("-" if math.copysign(1.0, v) < 0 else "+") + f"{fr.numerator}p{e}"
 
 
 def unfx(t):
+    if t in ("nan", "+inf", "-inf"):
+        return float(t)
     m, e = t[1:].split("p")
     v = math.ldexp(int(m), -int(e)) if int(e) < 1000 else float(Fraction(int(m), 2 ** int(e)))
     return -v if t[0] == "-" else v
@@ -424,7 +433,7 @@ def _setup_ccd():
         info.set_ccd_path(FIXTURE_CCD)
 
 
-def _read_back(lines, include_bonds, model=None, cell=None):
+def _read_back(lines, include_bonds, model=None, cell=None, altloc="first"):
     from biotite.structure.io.pdb import PDBFile
     _setup_ccd()
     text = "\n".join(lines) + "\n"
@@ -439,7 +448,7 @@ def _read_back(lines, include_bonds, model=None, cell=None):
         return orig(*args)
     pdbfile.vectors_from_unitcell = recorder
     try:
-        st = f.get_structure(model=model, extra_fields=["atom_id", "b_factor", "occupancy", "charge"],
+        st = f.get_structure(model=model, altloc=altloc, extra_fields=["atom_id", "b_factor", "occupancy", "charge"],
                              include_bonds=include_bonds)
     finally:
         pdbfile.vectors_from_unitcell = orig
@@ -503,6 +512,14 @@ def run_impl(case):
                 elif w[0] == "rawline":
                     lines.append(unhx(w[1]))
                     out.append("ok")
+                elif w[0] == "readalt":
+                    if not lines:
+                        out.append("no-file")
+                    else:
+                        cell = []
+                        st = _read_back(lines, w[2] == "1", cell=cell, altloc=w[1])
+                        extra_l = (" L:" + "".join("_" if c in (" ", "") else str(c) for c in st.altloc_id)) if w[1] == "all" else ""
+                        out.append(_canon_read(st) + extra_l + _canon_cell(cell))
                 elif w[0] in ("readmodel", "read"):
                     if not lines:
                         out.append("no-file")
@@ -635,6 +652,8 @@ def oracle(case):
         return _oracle_h36range(case)
     if kind in ("h36",):
         return _oracle_h36ops(case)
+    if kind == "altloc":
+        return _oracle_alt(case)
     if "ops" not in case or not any(op.startswith("write") for op in case["ops"]):
         return []
     from biotite.structure.io.pdb import PDBFile
@@ -801,6 +820,45 @@ def oracle(case):
                                               for i in range(n) for d in range(3)):
                 v.append(("C07/model-index/wrong-model", f"get_structure(model={k}) is not model {want + 1} of {M}"))
                 return v
+    return v
+
+
+def _oracle_alt(case):
+    """altloc='first' keeps, per residue, the rows without altloc id and those with the first id that occurs;
+    'occupancy' those with the id of highest summed occupancy (smallest id on ties); 'all' keeps everything."""
+    recs = case["alt"]["recs"]
+    lines = [unhx(op.split()[1]) for op in case["ops"] if op.startswith("rawline")]
+    runs = []
+    for r in recs:
+        if runs and runs[-1][-1][3] == r[3]:
+            runs[-1].append(r)
+        else:
+            runs.append([r])
+    v = []
+    for mode in ("first", "occupancy", "all"):
+        want = []
+        for run in runs:
+            ids = [r[2] for r in run if r[2] != " "]
+            if mode == "all":
+                keep = None
+            elif not ids:
+                keep = " "
+            elif mode == "first":
+                keep = ids[0]
+            else:
+                sums = {}
+                for r in run:
+                    if r[2] != " ":
+                        sums[r[2]] = sums.get(r[2], 0) + round(r[4] * 100)
+                keep = min(sums, key=lambda k: (-sums[k], k))
+            want += [(r[0], r[1]) for r in run if keep is None or r[2] == " " or r[2] == keep]
+        with warnings.catch_warnings():
+            warnings.simplefilter("ignore")
+            st = _read_back(lines, False, altloc=mode)
+        got = [(int(i), str(nme)) for i, nme in zip(st.atom_id, st.atom_name)]
+        if got != want or st.stack_depth() != case["alt"]["nm"]:
+            v.append((f"C07/altloc/{mode}", f"altloc={mode!r} kept {got}, expected {want}"))
+            break
     return v
 
 
@@ -1021,6 +1079,23 @@ def gen_struct(rng, malformed=None):
         elif malformed == "q":
             f["q"] = True
             a["q"] = rng.choice([10, -10, 11, -128, 99])
+        elif malformed == "nonfinite":
+            v = rng.choice([float("nan"), float("inf"), float("-inf")])
+            what = rng.choice(["coord", "coord", "bf", "occ", "bf-unused", "occ-unused"])
+            if what == "coord":
+                models[rng.randrange(nm)][rng.randrange(n)][rng.randrange(3)] = v
+            elif what == "bf":
+                f["b"] = True
+                a["bf"] = v
+            elif what == "occ":
+                f["occ"] = True
+                a["occ"] = v
+            elif what == "bf-unused":       # annotation absent: the value is not part of the structure at all
+                f["b"] = False
+                a["bf"] = v
+            else:
+                f["occ"] = False
+                a["occ"] = v
         elif malformed == "resid":
             a["resid"] = rng.choice([-1, -7, 2436112, 2436113 + rng.randint(0, 10 ** 6)]) if f["h36"] else rng.choice([-1000, -1001, -9999, -10 ** 5, 10000, 10001, 12345, 19999, 20000])
         elif malformed == "atomid":
@@ -1031,7 +1106,7 @@ def gen_struct(rng, malformed=None):
     return S
 
 
-MALFORMED = ["name", "res", "chain", "ins", "el", "coord", "coord", "bf", "occ", "q", "resid", "resid", "atomid", "atomid", "box", "box"]
+MALFORMED = ["name", "res", "chain", "ins", "el", "coord", "coord", "bf", "occ", "q", "resid", "resid", "atomid", "atomid", "box", "box", "nonfinite", "nonfinite", "nonfinite"]
 
 
 def pdb_line(rng, rec):
@@ -1080,6 +1155,51 @@ def gen_raw(rng):
         lines = [l.rstrip() for l in lines]      # PDBFile.read pads short lines
     return {"kind": "rawread", "ops": ["rawline " + hx(l) for l in lines] + ["read 0"] +
             [f"readmodel {k} 0" for k in rng.sample(range(-nm - 2, nm + 3), 2)]}
+
+
+def gen_alt(rng):
+    """a file with alternate locations: residues whose atoms come in 1-3 alternates (letters or digits), 1-2 models"""
+    nres = rng.randint(1, 4)
+    recs = []
+    serial = 0
+    for r_i in range(nres):
+        while True:
+            key = (rng.choice(["A", "B"]), rng.choice([5, 5, 6, 7]), rng.choice(["", "", "A"]), rng.choice(["ALA", "GLY", "LIG"]))
+            ids = rng.choice([[" "], ["A", "B"], ["B", "A"], ["1", "2"], ["A", "B", "C"], ["A"], ["b", "a"]])
+            dyadic = rng.random() < 0.5
+            atoms = []
+            for a_i in range(rng.randint(1, 3)):
+                alts = ids if rng.random() < 0.7 else [" "]
+                if len(ids) > 1 and rng.random() < 0.2:
+                    alts = ids[:1]
+                for alt in alts:
+                    occ = rng.choice([0.25, 0.5, 0.75, 1.0, 0.0]) if dyadic else rng.randint(0, 100) / 100
+                    atoms.append((f"C{a_i}", alt, occ))
+            if rng.random() < 0.3:
+                rng.shuffle(atoms)
+            sums = {}
+            for _, alt, occ in atoms:
+                if alt != " ":
+                    sums[alt] = sums.get(alt, 0) + round(occ * 100)
+            if dyadic or len(set(sums.values())) == len(sums):
+                break
+        for name, alt, occ in atoms:
+            serial += 1
+            recs.append((serial, name, alt, key, occ))
+    nm = rng.choice([1, 1, 2])
+    lines = []
+    for m in range(nm):
+        if nm > 1:
+            lines.append(f"MODEL     {m + 1:4}")
+        for serial, name, alt, (ch, rid, ins, rn), occ in recs:
+            x, y, z = (round(rng.uniform(-50, 50), 3) for _ in range(3))
+            lines.append(f"ATOM  {serial:>5} {(' ' + name).ljust(4)}{alt}{rn:>3} {ch}{rid:>4}{ins:1}   {x:>8.3f}{y:>8.3f}{z:>8.3f}{occ:>6.2f}{10.0:>6.2f}"
+                         + " " * 10 + " C" + "  ")
+        if nm > 1:
+            lines.append("ENDMDL")
+    mode = rng.choice(["first", "first", "occupancy", "occupancy", "all"])
+    return {"kind": "altloc", "ops": ["rawline " + hx(l) for l in lines] + [f"readalt {mode} 0", f"readalt {rng.choice(['first', 'occupancy', 'all'])} 0"],
+            "alt": {"recs": [[sr, nme, al, list(k), oc] for sr, nme, al, k, oc in recs], "nm": nm}}
 
 
 def h36_numbers(rng, count):
@@ -1137,6 +1257,8 @@ def cases(rng, tier):
         yield {"kind": "malformed", "ops": struct_ops(S)}
     for _ in range(n_raw):
         yield gen_raw(rng)
+    for _ in range(120 if quick else 1500):
+        yield gen_alt(rng)
     nums = h36_numbers(rng, n_h36)
     for i in range(0, len(nums), 250):
         yield {"kind": "h36", "ops": [f"h36enc {n} {w}" for n, w in nums[i:i + 250]]}
